@@ -28,3 +28,25 @@ func ZZ_C19_T3_SensorCommandCalls() {
 		zzv.Assert(s.GetMovingAvg() == 50000, "T3.failed_command_leaves_average_unchanged")
 	}
 }
+
+// T5 (history): two polls of the same cmd sensor object, the first with any outcome, the second a
+// healthy command: whatever the first poll left behind (locks, flags, cached state), the second one
+// returns and succeeds - "never blocks the sensor monitor" is about every later poll too.
+func ZZ_C19_T5_PollAfterAnyOutcome() {
+	zzv.RealCommands()
+	configuration.CurrentConfig.TempRollingWindowSize = 10
+	tool := zzv.TempDir("exec") + "/read_temp"
+	texts := []string{"42000", "", "N/A", "nan"}
+	zzv.ExecScenario(tool, zzv.Choice("firstScenario", 7), texts[zzv.Choice("firstText", len(texts))])
+	s, err := sensors.NewSensor(configuration.SensorConfig{ID: "zzsensor", Cmd: &configuration.CmdSensorConfig{Exec: tool}})
+	if err != nil {
+		panic(err)
+	}
+	s.SetMovingAvg(50000)
+	_ = updateSensor(s)
+	zzv.ExecScenario(tool, zzv.ExecOK, "43000")
+	v, verr := s.GetValue()
+	zzv.RecordB("secondPollFailed", verr != nil)
+	zzv.Assert(verr == nil, "T5.healthy_poll_after_any_outcome_succeeds")
+	zzv.Assert(v == 43000, "T5.healthy_poll_reads_the_value")
+}
